@@ -903,5 +903,7 @@ _run_before_api = run
 
 def run(ctx):
     _run_before_api(ctx)
+    import translate_progress
+    translate_progress.check(ctx)     # State bookkeeping / _do_render compiled from the source and linked to Obs/Progress.v by theorems
     import api_corr
     api_corr.run_api_corr(ctx)
